@@ -58,7 +58,7 @@ func cmdRender(args []string) {
 	for _, c := range cases {
 		prog, _ := c["prog"].(N)
 		if prog != nil && prog["files"] == nil {
-			c["src"] = renderFile(list(prog["imports"]), list(prog["body"]))
+			c["src"] = renderFile(list(prog["imports"]), respell(list(prog["body"]), str(c["spell"])))
 		}
 	}
 	writeCases(args[1], cases)
